@@ -953,6 +953,16 @@ fn parse_number(cursor: &mut Cursor) -> Result<Option<usize>, Error> {
             )
             .with_source(e)
         }));
+        // widths and precisions become padding of that size
+        if num > crate::value::ops::MAX_REPEATED_STRING_LEN {
+            return Err(Error::new(
+                ErrorKind::InvalidOperation,
+                format!(
+                    "number in the format string at offset {} is too large",
+                    cursor.position()
+                ),
+            ));
+        }
         Ok(Some(num))
     }
 }
